@@ -32,7 +32,9 @@ def make_config(rnd, n):
     d = rnd.choice([2, 3])
     return {"n": n, "P": P, "I": I, "kinds": kinds, "d": d, "seeds": [rnd.randrange(1 << 30) for _ in range(n)],
             "temps": [1.0 * (1 + i) for i in range(n)], "mu": [rnd.uniform(-1, 1) for _ in range(d)],
-            "controller_seed": rnd.randrange(1 << 30), "step": rnd.choice([0.5, 1.0, 2.0])}
+            "controller_seed": rnd.randrange(1 << 30), "step": rnd.choice([0.5, 1.0, 2.0]),
+            # keys the controller fixes itself may also appear in the user's kwargs: the controller's values win
+            "kw_overrides": rnd.random() < 0.4}
 
 
 def job(cfg, tmp, sleep_seed, sleep_scale):
@@ -54,7 +56,8 @@ def job(cfg, tmp, sleep_seed, sleep_scale):
     files = [os.path.join(tmp, f"t_{i}.h5") for i in range(n)]
     ctrl = S.ParallelSampleSMP(seed=cfg["controller_seed"])
     ctrl.sample(samplers, files, posts, overwrite_existing_files=True, proposals=cfg["P"], exchange=True, exchange_interval=cfg["I"],
-                initial_model=np.zeros((cfg["d"], 1)), kwargs={"disable_progressbar": True, "stepsize": cfg["step"]})
+                initial_model=np.zeros((cfg["d"], 1)),
+                kwargs=dict({"disable_progressbar": True, "stepsize": cfg["step"]}, **({"proposals": cfg["P"] + cfg["I"], "overwrite_existing_file": False} if cfg.get("kw_overrides") else {})))
     sched = None if ctrl.exchange_schedule is None else np.array(ctrl.exchange_schedule).tolist()
     out = {"schedule": sched, "files": [], "taps": []}
     for i in range(n):
@@ -144,7 +147,7 @@ def run(tier, seed):
     with scratch() as tmp:
         for ci, n in enumerate(ns):
             cfg = make_config(rnd, n)
-            stim = {k: cfg[k] for k in ("n", "P", "I", "kinds")}
+            stim = {k: cfg[k] for k in ("n", "P", "I", "kinds", "kw_overrides")}
             runs = []
             for rep, (ss, sc) in enumerate([(ci * 2 + 1, 0.004), (ci * 2 + 2, 0.0)]):
                 sub = os.path.join(tmp, f"c{ci}_{rep}")
